@@ -44,6 +44,13 @@ def run(chk):
     # R6: the flags and identifiers the rules above read are the ones the constructors were given
     aud.ctor_fields(chk, "C08.R6", REL, "CVR", ["id", "votes", "phantom", "tally_pool", "pool"], "phantom records are recognised by obj.phantom")
     aud.ctor_fields(chk, "C08.R6", REL, "Stratum", ["max_cards", "use_style"], "the accounting scheme and the card bound come from the stratum")
+    # R7: the manifest side of the same accounting: the phantom batch holds max_cards - manifest_cards cards (C17.R3)
+    from . import c17
+    def _prep(c):
+        for name, fm in c17.FORMATS.items():
+            c17.prep_rule(c, name, fm)
+    chk.borrow(_prep, {"C17.R3": "C08.R7"})
+    chk.obs = [o for o in chk.obs if not (o.rule == "C08.R7" and o.key not in ("phantom-batch", "manifest_cards=sum-of-counts", "cum_cards-after-append"))]
 
 
 def cvr_ctor_calls(node):
